@@ -19,7 +19,8 @@ def sigma_for(w, rng):
 
 def history(rng, w, length):
     m = (1 << w) - 1
-    consts = [0, 1, 2, 3, 4, m, m - 1, 1 << (w - 1), (1 << (w - 1)) + 1, 6, 128 & m, 129 & m]
+    half = 1 << (w - 1)
+    consts = [0, 1, 2, 3, 4, m, m - 1, half, half, half, half + 1, half - 1, 6, 128 & m, 129 & m, 1 << (w - 2)]
     calls, ids, transparent = [], [], set()
     nid = 0
 
@@ -51,6 +52,8 @@ def history(rng, w, length):
             if a in transparent and b in transparent:
                 transparent.add(i)
         elif k < 0.42:
+            if rng.random() < 0.3:
+                b = a                      # squares: x*x, the shape normalize() rewrites
             i = new("mul", a=a, b=b)
             ids.append(i)
             if a in transparent and b in transparent:
@@ -64,9 +67,9 @@ def history(rng, w, length):
             i = new("val", c=rng.choice(consts))
             ids.append(i)
             transparent.add(i)
-        elif k < 0.58:
+        elif k < 0.57:
             new("half", a=a)            # result id is only valid if Some; python does not use it further
-        elif k < 0.64:
+        elif k < 0.66:
             i = new("normalize", a=a)
             ids.append(i)
         elif k < 0.74 and transparent:
@@ -102,7 +105,7 @@ def c15(tier):
     rng = random.Random(sd)
     bins = build_harness(("release",))
     hv = bins["release"]
-    n, length = (600, 30) if tier == "quick" else (12000, 45)
+    n, length = (1200, 30) if tier == "quick" else (20000, 45)
     reqs = []
     for k in range(n):
         w = [8, 16, 32, 64][k % 4]
